@@ -301,7 +301,9 @@ Definition ext_read (e : ext) (n : N) : res bytes :=
   | ESessionTicket t =>                                                          (* u_session_ticket.go:38 *)
       guarded n (ext_len e) (enc_u16 ID_SESSION_TICKET ++ enc_u16 (ext_len e - 4) ++ t)
   | EUtlsPreSharedKey s c omit ids bs =>                                         (* u_pre_shared_key.go:267 *)
-      if negb omit && (utls_psk_len s c ids bs =? 0) then Err E_EMPTY_PSK
+      (* if e.Len() == 0 { if !e.OmitEmptyPsk { return 0, ErrEmptyPsk }; return 0, io.EOF }
+         [fix C08-utls-psk-read-without-session] *)
+      if utls_psk_len s c ids bs =? 0 then (if negb omit then Err E_EMPTY_PSK else Ok [])
       else read_psk n ids bs
   | EFakePreSharedKey omit ids bs =>                                             (* u_pre_shared_key.go:361 *)
       if negb omit && (psk_ext_len ids bs =? 0) then Err E_EMPTY_PSK
@@ -462,8 +464,10 @@ Definition ech_write (b : bytes) : res ext :=
           match read_u16lp s5 with
           | None => Err E_ECH_PAYLOAD
           | Some (payload, _) =>
-            (* CandidatePayloadLens = []uint16{uint16(len(ignored) - cipherLen(aead, 0))} *)
-            let cand := (blen payload + 65536 - ECH_TAG_LEN) mod 65536 in
+            (* if len(ignored) < tagLen { return fullLen, errors.New(...) }   [fix C08-ech-grease-short-payload] *)
+            if blen payload <? ECH_TAG_LEN then Err E_ECH_PAYLOAD_SHORT else
+            (* CandidatePayloadLens = []uint16{uint16(len(ignored) - tagLen)} *)
+            let cand := (blen payload - ECH_TAG_LEN) mod 65536 in
             (* init(): len(payload) = cipherLen(aead, cand) = cand + 16 *)
             let plen := cand + ECH_TAG_LEN in
             let enclen := if blen enc =? 0 then 32 else blen enc in
